@@ -53,10 +53,41 @@ class Schema:
             for fname, st in ci.fields().items():
                 f = Field(fname, name, st.annotation, st)
                 self._type_of(st.annotation, f)
-                self._default_of(st.value, f)
+                self._default_of(self._field_call(ci, st.value), f)
                 self.classes[name][fname] = f
         if ROOT not in self.classes:
             raise AnalysisError(f"schema root {ROOT} vanished")
+
+    def _field_call(self, ci: ClassInfo, value: Optional[ast.AST]) -> Optional[ast.AST]:
+        """`x: T = helper(args)` where the module-level helper only returns a field(...) call: that field(...) call with the
+        helper's parameters replaced by the arguments (defaults included)."""
+        if not (isinstance(value, ast.Call) and isinstance(value.func, ast.Name)):
+            return value
+        fn = ci.module.functions.get(value.func.id)
+        if fn is None:
+            return value
+        body = [b for b in fn.node.body if not (isinstance(b, ast.Expr) and isinstance(b.value, ast.Constant))]
+        if not (len(body) == 1 and isinstance(body[0], ast.Return) and isinstance(body[0].value, ast.Call)
+                and norm(body[0].value.func).split(".")[-1] in ("field", "ib", "attrib")):
+            return value
+        import copy
+
+        a = fn.node.args
+        params = [x.arg for x in a.posonlyargs + a.args]
+        binding = {}
+        for p_, d_ in zip(params[len(params) - len(a.defaults):], a.defaults):
+            binding[p_] = d_
+        for p_, v_ in zip(params, value.args):
+            binding[p_] = v_
+        for k_ in value.keywords:
+            if k_.arg:
+                binding[k_.arg] = k_.value
+
+        class Sub(ast.NodeTransformer):
+            def visit_Name(self, node):
+                return copy.deepcopy(binding[node.id]) if node.id in binding and isinstance(node.ctx, ast.Load) else node
+
+        return Sub().visit(copy.deepcopy(body[0].value))
 
     def _type_of(self, ann: Optional[ast.AST], f: Field) -> None:
         if ann is None:
